@@ -486,3 +486,41 @@ package anytype
 //@ instantiate map-kind(MapBools, TBool, argBool(ego.val[k]), VNil)
 //@ instantiate map-kind(MapInts, TInt, argInt(ego.val[k]), VNil)
 //@ instantiate map-kind(MapFloats, TFloat, argFloat(ego.val[k]), VNil)
+
+//@ template filter-kind(NAME, KIND)
+//@ func (*list).NAME callbacks [C14 C09 C19]
+//@   requires invL(ego)
+//@   let n := len(ego.val)
+//@   let A := mem(ego.val)
+//@   let t0 := trlen()
+//@   let c := cntV(A, KIND, n)
+//@   let s := selPos(A, KIND, n)
+//@   assigns  nothing
+//@   panics_iff false
+//@   plet r := list(vlref(result))
+//@   ensures  new: isVList(result) && fresh(r) && plain(r) && invL(r) && r.ptr == result
+//@   ensures  own-storage: fresh(arr(r.val)) [C09 C14]
+//@   ensures  len: len(r.val) == s
+//@   ensures  elems: forall k int :: {old(selPos(A, KIND, k))} 0 <= k && k < n && old(selected(KIND, ego.val[k])) ==> 0 <= old(selPos(A, KIND, k)) && old(selPos(A, KIND, k)) < s && r.val[old(selPos(A, KIND, k))] == old(ego.val[k])
+//@   ensures  count: trlen() == t0 + c
+//@   ensures  calls: forall k int :: {cntV(A, KIND, k)} 0 <= k && k < n && visited(KIND, ego.val[k]) ==> trA(t0 + cntV(A, KIND, k)) == old(selArg(KIND, ego.val[k]))
+//@   ensures  prefix: forall j int :: 0 <= j && j < t0 ==> trA(j) == old(trA(j)) && trB(j) == old(trB(j))
+//@   loop 1
+//@     assigns list(list(vlref(result)))
+//@     let r := list(vlref(result))
+//@     let ci := cntV(A, KIND, idx)
+//@     let si := old(selPos(A, KIND, idx))
+//@     invariant range: 0 <= idx && idx <= n && 0 <= ci && 0 <= si
+//@     invariant hdr: isVList(result) && fresh(r) && plain(r) && invL(r) && r.ptr == result && fresh(arr(r.val)) && len(r.val) == si
+//@     invariant elems: forall k int :: {old(selPos(A, KIND, k))} 0 <= k && k < idx && old(selected(KIND, ego.val[k])) ==> 0 <= old(selPos(A, KIND, k)) && old(selPos(A, KIND, k)) < si && r.val[old(selPos(A, KIND, k))] == old(ego.val[k])
+//@     invariant count: trlen() == t0 + ci
+//@     invariant calls: forall k int :: {cntV(A, KIND, k)} 0 <= k && k < idx && visited(KIND, ego.val[k]) ==> 0 <= cntV(A, KIND, k) && cntV(A, KIND, k) < ci && trA(t0 + cntV(A, KIND, k)) == old(selArg(KIND, ego.val[k]))
+//@     invariant prefix: forall j int :: 0 <= j && j < t0 ==> trA(j) == old(trA(j)) && trB(j) == old(trB(j))
+//@     decreases n - idx
+//@ end
+//@ instantiate filter-kind(Filter, 0)
+//@ instantiate filter-kind(FilterObjects, TObject)
+//@ instantiate filter-kind(FilterLists, TList)
+//@ instantiate filter-kind(FilterStrings, TString)
+//@ instantiate filter-kind(FilterInts, TInt)
+//@ instantiate filter-kind(FilterFloats, TFloat)
